@@ -233,18 +233,33 @@ class Ctx:
             return s.show(sym.strip_transparent(s.place(node)))
         return s.show(sym.strip_transparent(s.rvalue(node)))
 
+    def ret_values(self, body):
+        """The distinct rendered values the function returns (`return x` on several paths is one value)."""
+        out = []
+        for _, e in self.ret_exprs(body):
+            if e not in out:
+                out.append(e)
+        return out
+
     def ret_exprs(self, body):
         """(block, rendered expr) for every assignment / call that defines the return place _0."""
         out = []
+        seen = set()
         s, _ = self.sym(body)
-        for d in body.defs().get(0, []):
-            blk, i, kind, node = d
-            if body.is_cleanup(blk):
-                continue
-            if kind == "assign":
-                out.append((blk, s.show(sym.strip_transparent(s.rvalue(node["r"])))))
-            elif kind == "call":
-                out.append((blk, s.show(sym.strip_transparent(s._def_expr(d, 0)))))
+
+        def expand(l, depth=0):
+            for d in body.defs().get(l, []):
+                blk, i, kind, node = d
+                if body.is_cleanup(blk) or kind not in ("assign", "call"):
+                    continue
+                e = sym.strip_transparent(s._def_expr(d, 0))
+                # a value assembled in a local on several branches (`let r = if .. {a} else {b}; r`)
+                if e[0] == "local" and depth < 4 and e[1] != l:
+                    expand(e[1], depth + 1)
+                    continue
+                out.append((blk, s.show(e)))
+
+        expand(0)
         return out
 
     def true_conditions(self, body):
@@ -282,6 +297,35 @@ class Ctx:
                 names += [ci.get("fn"), ci.get("fn_with_args"), ci.get("resolved_with_args")]
             if any(n and rx.search(n) for n in names):
                 out.append((blk, t))
+        return out
+
+    def closure_sites(self, body):
+        """closure key -> block of `body` in which the closure value is built"""
+        out = {}
+        for blk, i, st in body.stmts():
+            if st["k"] == "assign" and st["r"]["k"] == "aggregate" and st["r"]["agg"] == "closure":
+                out.setdefault(st["r"]["closure"], blk)
+        return out
+
+    def find_calls_deep(self, body, callee_rx):
+        """Calls matching `callee_rx` in `body` or in closures built by it (any depth):
+        (block of `body` that makes the call or builds the outermost closure, terminator, body that
+        contains the call).  A loop written as `for` and one written as `fold`/`for_each` agree."""
+        out = [(blk, t, body) for blk, t in self.find_calls(body, callee_rx)]
+        sites = self.closure_sites(body)
+
+        def walk(owner_blk, b):
+            for c in self.closures_of(b):
+                ob = owner_blk
+                if ob is None:
+                    ob = sites.get(c.key)
+                    if ob is None:
+                        continue
+                for blk, t in self.find_calls(c, callee_rx):
+                    out.append((ob, t, c))
+                walk(ob, c)
+
+        walk(None, body)
         return out
 
     def find_aggregates(self, body, adt_rx, variant=None):
